@@ -25,7 +25,10 @@ template <typename ContainerIterator>
 template <typename OtherIterator>
 fcppt::cyclic_iterator<ContainerIterator>::cyclic_iterator(
     cyclic_iterator<OtherIterator> const &_other)
-    : it_(_other.it_), boundary_(_other.boundary_)
+    : it_(_other.get()),
+      boundary_(
+          container_iterator_type{fcppt::tuple::get<0>(_other.get_boundary())},
+          container_iterator_type{fcppt::tuple::get<1>(_other.get_boundary())})
 {
 }
 
@@ -41,9 +44,11 @@ template <typename OtherIterator>
 fcppt::cyclic_iterator<ContainerIterator> &
 fcppt::cyclic_iterator<ContainerIterator>::operator=(cyclic_iterator<OtherIterator> const &_other)
 {
-  this->it_ = _other.it_;
+  this->it_ = _other.get();
 
-  this->boundary_ = _other._boundary;
+  this->boundary_ = boundary{
+      container_iterator_type{fcppt::tuple::get<0>(_other.get_boundary())},
+      container_iterator_type{fcppt::tuple::get<1>(_other.get_boundary())}};
 
   return *this;
 }
